@@ -245,6 +245,24 @@ def build(spec: NetSpec, names=None, order=None, override=None, netname="net", t
     return Built(net, spec, obj)
 
 
+def rebuild_with_new_nodes(built: Built) -> Built:
+    """A second Network made of the SAME link / origin / destination objects but fresh Node objects (two scenario
+    variants sharing their elements).  Element objects may be re-used in another network."""
+    spec = built.spec
+    obj = dict(built.obj)
+    for i in range(spec.n):
+        obj[f"n{i}"] = M.Node(name=f"m{i}")
+    net = M.Network(name="net2")
+    net.add_nodes([obj[f"n{i}"] for i in range(spec.n)])
+    for i, l in enumerate(spec.links):
+        net.add_link(obj[f"n{l.u}"], obj[f"L{i}"], obj[f"n{l.v}"])
+    for o in spec.origins:
+        net.add_origin(obj[f"O{o.node}"], obj[f"n{o.node}"])
+    for d in spec.dests:
+        net.add_destination(obj[f"D{d.node}"], obj[f"n{d.node}"])
+    return Built(net, spec, obj)
+
+
 def build_edited(spec: NetSpec, P: dict, mode: str = "links", engine=None) -> Built:
     """Reaches the network described by `spec` from a NON-initial state: a different valid network on the same
     nodes is built, every lookup is read, it is stepped, and then it is edited in place into the described
